@@ -353,8 +353,15 @@ class Translator:
             raise Unsupported("statement %s (line %d)" % (type(s).__name__, s.lineno))
         return m(s, env, cont, rest)
 
+    def s_Pass(self, s, env, cont, rest):
+        return cont(env)
+
     def s_Expr(self, s, env, cont, rest):
         if isinstance(s.value, ast.Constant) and isinstance(s.value.value, str):
+            return cont(env)
+        # logging has no effect on the result: logger.debug(...) / logger.info(...) / logger.warning(...) statements are skipped
+        if isinstance(s.value, ast.Call) and isinstance(s.value.func, ast.Attribute) and isinstance(s.value.func.value, ast.Name) \
+                and s.value.func.value.id in ("logger", "logging") and s.value.func.attr in ("debug", "info", "warning"):
             return cont(env)
         raise Unsupported("expression statement %s" % ast.unparse(s))
 
